@@ -23,6 +23,8 @@ type stratCfg struct {
 	Pop      [][]int // initial priorities per queue
 	Adds     [][2]int // interleaved submissions: (after how many dispatches, queue)
 	Binds    [][2]int // further queues bound in the middle of the run: (after how many dispatches, kind)
+	Closes   [][2]int // queues closed in the middle of the run once they hold nothing: (after how many dispatches, queue)
+	Faults   [][2]int // transient dequeue faults of adapter-backed queues: (queue, which dequeue call)
 }
 
 var stratNames = []string{"RoundRobin", "MaxLen", "MinLen"}
@@ -32,7 +34,7 @@ func (c stratCfg) String() string {
 	for i, k := range c.Kinds {
 		ks = append(ks, fmt.Sprintf("%s:%d", k, len(c.Pop[i])))
 	}
-	return fmt.Sprintf("strategy=%s queues=[%s] interleaved=%d lateBinds=%v", stratNames[c.Strategy], strings.Join(ks, " "), len(c.Adds), c.Binds)
+	return fmt.Sprintf("strategy=%s queues=[%s] interleaved=%d lateBinds=%v closes=%v deqFaults=%v", stratNames[c.Strategy], strings.Join(ks, " "), len(c.Adds), c.Binds, c.Closes, c.Faults)
 }
 
 func drawStrat(r *Rng) stratCfg {
@@ -65,6 +67,22 @@ func drawStrat(r *Rng) stratCfg {
 			c.Binds = append(c.Binds, [2]int{1 + r.Intn(total-1), r.Intn(6)})
 		}
 	}
+	if r.Chance(25) && total > 2 {
+		// closing a queue that holds nothing must not disturb the order of the others
+		for i := 0; i < 1+r.Intn(2); i++ {
+			c.Closes = append(c.Closes, [2]int{r.Intn(total), r.Intn(nq)})
+		}
+	}
+	if r.Chance(25) {
+		// a backend hiccup on one queue: the dispatcher goes on with the others and comes back
+		for qi, k := range c.Kinds {
+			if k.Adapter() && len(c.Pop[qi]) > 0 && r.Chance(60) {
+				for i := 0; i < 1+r.Intn(2); i++ {
+					c.Faults = append(c.Faults, [2]int{qi, 1 + r.Intn(len(c.Pop[qi])+1)})
+				}
+			}
+		}
+	}
 	return c
 }
 
@@ -90,9 +108,29 @@ func epStrat(c *RunCtx, cfg stratCfg) *Result {
 			var led *Ledger
 			if kind.Adapter() {
 				led = NewLedger(e, kind.Priority())
+				for _, f := range cfg.Faults {
+					if f[0] == i {
+						led.FailDeq[f[1]] = true
+					}
+				}
 			}
 			qs[i] = s.Bind(kind, led)
 		}
+		closed := map[int]bool{}
+		deqFails := func() int {
+			n := 0
+			for _, q := range qs {
+				if q.Led != nil {
+					for _, c := range q.Led.CallsCopy() {
+						if c.Kind == "deq-fail" {
+							n++
+						}
+					}
+				}
+			}
+			return n
+		}
+		seenFails := 0
 		s.W.Pause()
 		model := make([][]*sJob, nq)
 		owner := map[int]int{}
@@ -172,8 +210,17 @@ func epStrat(c *RunCtx, cfg stratCfg) *Result {
 			}
 			qi := owner[cur]
 			order = append(order, fmt.Sprintf("q%d:%d", qi, cur))
+			// a dequeue that failed since the last observation made the dispatcher move on to another
+			// queue: the selection of this round is not determined by the lengths alone
+			strategy := cfg.Strategy
+			if nf := deqFails(); nf != seenFails {
+				seenFails = nf
+				e.Ev("deq-faults", nf)
+				strategy = -1
+				cursor = (qi + 1) % nq
+			}
 			// allowed by the strategy?
-			switch cfg.Strategy {
+			switch strategy {
 			case 0:
 				want := -1
 				for d := 0; d < nq; d++ {
@@ -241,8 +288,15 @@ func epStrat(c *RunCtx, cfg stratCfg) *Result {
 				}
 			}
 			for _, a := range cfg.Adds {
-				if a[0] == dispatched {
+				if a[0] == dispatched && !closed[a[1]%nq] {
 					add(a[1]%nq, 0)
+				}
+			}
+			for _, cl := range cfg.Closes {
+				if qi := cl[1] % nq; cl[0] == dispatched && len(model[qi]) == 0 && !closed[qi] {
+					closed[qi] = true
+					qs[qi].Base.Close()
+					e.Ev("close-empty-queue", qi)
 				}
 			}
 			synctest.Wait()
@@ -290,6 +344,7 @@ func epStrat(c *RunCtx, cfg stratCfg) *Result {
 }
 
 func runC15(c *RunCtx) {
+	bindStormPrograms(c, 24, 120)
 	for v := 0; v < c.Q(1200, 6000); v++ {
 		c.Program(fmt.Sprintf("strategy/%d", v), func(p *Prog) {
 			cfg := drawStrat(p.Rng)
